@@ -7,7 +7,9 @@
 
 #include <atomic>
 #include <functional>
+#include <algorithm>
 #include <memory>
+#include <mutex>
 #include <string>
 #include <utility>
 #include <vector>
@@ -146,6 +148,57 @@ namespace rkverif {
           delete t;
       }
       rkcommon::tasking::detail::scheduleTaskInternal(task);
+    }
+
+    // ---- R-C02-10: a task (its closure's destructor is user code) is not destroyed under the lock schedule() takes
+    static std::mutex g_listMutex;
+    static std::vector<Task *> g_list;
+
+    inline void reapUnderLock()  // a closure destructor that schedules re-enters and blocks on g_listMutex
+    {
+      std::lock_guard<std::mutex> lock(g_listMutex);
+      for (Task *t : g_list) {
+        if (t->GetIsComplete())
+          delete t;
+      }
+    }
+
+    inline void reapLambdaUnderLock()
+    {
+      std::lock_guard<std::mutex> lock(g_listMutex);
+      g_list.erase(std::remove_if(g_list.begin(), g_list.end(),
+                                  [](Task *t) {
+                                    if (!t->GetIsComplete())
+                                      return false;
+                                    delete t;
+                                    return true;
+                                  }),
+                   g_list.end());
+    }
+
+    inline void reapOutsideLock()
+    {
+      std::vector<Task *> mine;
+      {
+        std::lock_guard<std::mutex> lock(g_listMutex);
+        mine.swap(g_list);
+      }
+      for (Task *t : mine) {
+        if (t->GetIsComplete())
+          delete t;
+      }
+    }
+
+    inline void reapAfterUnlock()
+    {
+      std::unique_lock<std::mutex> lock(g_listMutex);
+      std::vector<Task *> mine;
+      mine.swap(g_list);
+      lock.unlock();
+      for (Task *t : mine) {
+        if (t->GetIsComplete())
+          delete t;
+      }
     }
 
     // ---- R-C02-8: a scheduler that may hold queued tasks is drained before its pipes are discarded
